@@ -719,6 +719,18 @@ fn run_and_judge(prog: &Program, strategy: Strategy, serial: bool, focus: &str) 
         findings.push(Finding::new(&["C15"], "deadlock: every unfinished worker is parked on a lock", "deadlock", d.clone()));
         return Ok(Judged { findings, outcome, feats, fatal: true });
     }
+    if let Some(l) = &outcome.livelock {
+        // bounded progress (C15); if the stuck worker is inside a read, that read "never returns"
+        let in_read = l.contains("read:after_lookup");
+        let props: &[&'static str] = if in_read { &["C15", "C05"] } else { &["C15"] };
+        findings.push(Finding::new(
+            props,
+            "no progress: a call keeps running without ever returning (livelock)",
+            if in_read { "read retry loop" } else { "livelock" },
+            l.clone(),
+        ));
+        return Ok(Judged { findings, outcome, feats, fatal: true });
+    }
     if outcome.watchdog {
         return Ok(Judged { findings, outcome, feats, fatal: true });
     }
